@@ -200,7 +200,7 @@ def main(argv=None):
     bad = scan_for_assume(cfg['modules'])
     if bad:
         print('ENGINE-SELF-CHECK failed: assume in contract files: %s' % bad); return 3
-    todo = [n for n, c in core.CONTRACTS.items() if not c.assumed and (prop in c.props or any(prop in (cl.props or ()) for cl in c.ensures + c.invariant + c.crash_invariant + [x for v in c.raises.values() for x in v]))]
+    todo = [n for n, c in core.CONTRACTS.items() if not c.assumed and (prop in c.props or prop in (c.escape_props or ()) or any(prop in (cl.props or ()) for cl in c.ensures + c.invariant + c.crash_invariant + [x for v in c.raises.values() for x in v]))]
     if args.only: todo = [n for n in todo if n in args.only]
     if not todo:
         print('ENGINE-SELF-CHECK failed: no function under contract for %s' % prop); return 3
